@@ -246,6 +246,17 @@ def check(ctx):
         if p.rule == "L1" and any(p.cls.startswith(x) for x in enc_prims):
             ctx.ob("S8", "%s %s" % (p.cls, p.what), False, where=loc(p.node), function="mqtt.pdu.%s" % p.cls.split("/")[0],
                    construct="mqtt.pdu.%s/%s" % (p.cls, p.what), msg=p.msg)
+    # S9: "packets the broker sends in the prescribed format decode to the field values the specification assigns them" rests on
+    # the decoding primitives as much as on the layouts: radix, byte order, continuation test, accumulation order, and no
+    # rejection of part of the legal domain (a guard that refuses every 4-byte remaining length)
+    dec_prims = ("decodeLength", "decode16Int", "decodeString")
+    for p in probs:
+        if p.rule == "L1" and any(p.cls.startswith(x) for x in dec_prims):
+            ctx.ob("S9", "%s %s" % (p.cls, p.what), False, where=loc(p.node), function="mqtt.pdu.%s" % p.cls.split("/")[0],
+                   construct="mqtt.pdu.%s/%s" % (p.cls, p.what), msg=p.msg)
+    for x in dec_prims:
+        if not [p for p in probs if p.rule == "L1" and p.cls.startswith(x)]:
+            ctx.ob("S9", "%s decodes the prescribed encoding over its whole domain" % x, True, where="src/mqtt/pdu.py", construct="mqtt.pdu.%s/shape" % x)
     for x in enc_prims:
         if not [p for p in probs if p.rule == "L1" and p.cls.startswith(x)]:
             ctx.ob("S8", "%s produces the prescribed encoding (radix, byte order, continuation)" % x, True, where="src/mqtt/pdu.py", construct="mqtt.pdu.%s/shape" % x)
